@@ -19,7 +19,7 @@ RULE = ("annotated generated assemblies over every supported geometry (as C08) w
         "[A-Za-z0-9_]), with and without unused extra modules; registry assemblies; two-level compositions: k level-0 assemblies over "
         "one enzyme whose products (embedding the next level's sites by construction) are re-used as modules of a level-1 assembly over "
         "another enzyme. Non-trivial = product returned, provenance features tiled and the GenBank round trip compared; distinct = distinct input sets.")
-ASSUMPTIONS = ["ids/names are GenBank-legal (<= 16 characters of [A-Za-z0-9_])", "the GenBank format cannot express 'unstranded': None is compared as +1"]
+ASSUMPTIONS = ["ids are GenBank-legal (<= 16 characters of [A-Za-z0-9_]); names are 1..28 such characters (current GenBank/Biopython accept long LOCUS names)", "the GenBank format cannot express 'unstranded': None is compared as +1"]
 FLOORS = {"c09_with_unused_module": 50, "c09_judged": 400, "c09_genbank_roundtrips": 400, "c09_fragment_counts_checked": 300, "c09_inner_provenance_checked": 50, "c09_registry_products": 8}
 MUST_REACH = ["add_as_source", "AssemblyManager._annotate_assembly"]
 NEEDS_REGISTRIES = True
@@ -69,7 +69,7 @@ def materialise(case):
                     m["has_unused"] = True
                     break
         m["id"] = "".join(rng.choice(IDCH) for _ in range(rng.randint(1, 16)))
-        m["name"] = "".join(rng.choice(IDCH) for _ in range(rng.randint(1, 16)))
+        m["name"] = "".join(rng.choice(IDCH) for _ in range(rng.choice([rng.randint(1, 16), rng.randint(17, 28)])))
         return m
     return case
 
